@@ -246,6 +246,17 @@ def run_case(case):
                         if snap != ('val', local):
                             viol.append({'mech': 'proxy/managed-value-is-a-copy', 'msg': f'mutations through the proxy returned by managed_list are not visible in the hosted value: server has {snap}, expected {local}'})
                             return
+                        # a proxy stored in a hosted object and used *inside* the server process
+                        call(0, 'b', 'keep', [('@H', 'L')])
+                        k_idx = call(0, 'b', 'n_kept', [])[1] - 1
+                        call(0, 'b', 'call_kept', [k_idx, 'insert', 0, ('srv', rd)])
+                        call(0, 'b', 'call_kept', [k_idx, '__setitem__', 1, ('srv2', rd)])
+                        local.insert(0, ('srv', rd))
+                        local[1] = ('srv2', rd)
+                        got = call(rng.choice([0] + list(agents)), 'L', '__getitem__', [slice(None)])
+                        if got != ('val', local):
+                            viol.append({'mech': 'proxy/server-side-proxy-call-differs', 'msg': f'list after insert/__setitem__ through a proxy used inside the server: {got}, expected {local}'})
+                            return
                         r = call(0, 'b', 'make_own_dict', [], None, 'D')
                         share('D', list(agents))
                         for j in range(6):
